@@ -44,7 +44,7 @@ LoopInfo(sg) ==
       \* invalid: duplicates, end not after start
       valid == Len(ss) <= 1 /\ Len(es) <= 1 /\ sT < eT
   IN [hasS |-> hasS, hasE |-> hasE, valid |-> valid, st |-> TimeOf(sg, sT), et |-> IF hasE THEN TimeOf(sg, eT) ELSE endTime,
-      stick |-> sT, etick |-> eT, etrk |-> IF hasE THEN es[1].trk ELSE -1, any |-> hasS \/ hasE]
+      stick |-> sT, etick |-> eT, etrk |-> IF hasE THEN es[1].trk ELSE -1, eidx |-> IF hasE THEN es[1].idx ELSE -1, any |-> hasS \/ hasE]
 \* number of passes of the loop body for API count n (0 is read as "no extra repeat")
 PassCount(n) == IF n < 0 THEN -1 ELSE IF n <= 1 THEN 1 ELSE n
 
@@ -100,7 +100,12 @@ PFF(ev, sg, c, D, H, its, li) ==
       inside(it)  == it.t > li.st /\ it.t < li.et
       atEdge(it)  == it.t = li.st \/ it.t = li.et
       lo(it) == IF ~c.loopEn THEN 1 ELSE IF wholeLoop THEN n ELSE IF inside(it) THEN n ELSE 1
-      hi(it) == IF ~c.loopEn THEN 1 ELSE IF wholeLoop THEN n ELSE IF inside(it) \/ atEdge(it) THEN n ELSE 1
+      \* an event written BEHIND the loopEnd marker in the marker's own track lies after the loop end even when it shares the
+      \* marker's tick: at most once (the tree delivers it never while looping: F26)
+      \* (note-offs and SysEx events are sorted to the front of their row, ahead of the marker: for them the same-tick
+      \*  membership stays open, like for the events written in front of the marker)
+      behind(it) == li.hasE /\ it.tick = li.etick /\ it.trk = li.etrk /\ it.idx > li.eidx /\ it.cls # "off" /\ it.k \notin {"sysex", "sysex7"}
+      hi(it) == IF ~c.loopEn THEN 1 ELSE IF wholeLoop THEN n ELSE IF behind(it) THEN 1 ELSE IF inside(it) \/ atEdge(it) THEN n ELSE 1
       keys  == { Rk[i] : i \in DOMAIN Rk } \cup { Dk[i] : i \in DOMAIN Dk }
       cntD(k) == Count(Dk, LAMBDA y : y = k)
       loK(k) == SumSeq([i \in DOMAIN its |-> IF Rk[i] = k THEN lo(its[i]) ELSE 0])
